@@ -12,11 +12,14 @@
 
 from __future__ import annotations
 
+import contextlib
 import itertools
 import logging
+import os
 import pickle  # noqa: S403
 import re
 import sys
+import tempfile
 import warnings
 from abc import abstractmethod
 from importlib.metadata import version
@@ -404,13 +407,50 @@ def perform_cached_doit(
     cache_directory.mkdir(exist_ok=True, parents=True)
     h = get_readable_hash(unevaluated_expr)
     filename = cache_directory / f"{h}.pkl"
-    if filename.exists():
-        with open(filename, "rb") as f:
-            return pickle.load(f)  # noqa: S301
+    cached_expr = _load_cached_doit(filename, unevaluated_expr)
+    if cached_expr is not None:
+        return cached_expr
     _LOGGER.warning(
         f"Cached expression file {filename} not found, performing doit()..."
     )
     unfolded_expr = unevaluated_expr.doit()
-    with open(filename, "wb") as f:
-        pickle.dump(unfolded_expr, f)
+    _dump_atomically((unevaluated_expr, unfolded_expr), filename)
     return unfolded_expr
+
+
+def _load_cached_doit(filename: Path, unevaluated_expr: sp.Expr) -> sp.Expr | None:
+    """Load an unfolded expression from disk if it belongs to :code:`unevaluated_expr`.
+
+    The file contains the original expression next to its unfolded form, so that a
+    cache file that was written for a different expression with the same hash, or
+    that is incomplete or corrupt, is ignored (and overwritten later on).
+    """
+    try:
+        with open(filename, "rb") as f:
+            cached_obj = pickle.load(f)  # noqa: S301
+    except FileNotFoundError:
+        return None
+    except Exception:  # noqa: BLE001
+        _LOGGER.warning(f"Could not load cached expression file {filename}")
+        return None
+    if not isinstance(cached_obj, tuple) or len(cached_obj) != 2:  # noqa: PLR2004
+        return None
+    original_expr, unfolded_expr = cached_obj
+    if not isinstance(original_expr, sp.Basic) or original_expr != unevaluated_expr:
+        return None
+    return unfolded_expr
+
+
+def _dump_atomically(obj, filename: Path) -> None:
+    """Pickle to a temporary file and move it in place, so readers never see half a file."""
+    file_descriptor, tmp_filename = tempfile.mkstemp(
+        dir=filename.parent, prefix=f"{filename.stem}-", suffix=".tmp"
+    )
+    try:
+        with os.fdopen(file_descriptor, "wb") as f:
+            pickle.dump(obj, f)
+        os.replace(tmp_filename, filename)
+    except BaseException:
+        with contextlib.suppress(OSError):
+            os.remove(tmp_filename)
+        raise
